@@ -47,6 +47,8 @@ class Aggregator:
                     self.c['one_preemption_fired'] += 1
                 elif s['fired'] is False:
                     self.c['one_preemption_beyond_end_of_call'] += 1
+                if s.get('killed'):
+                    self.c['fault:thread_call_killed_midway'] += 1
                 if s['history_dependence']:
                     self.c['sequentially_explainable_mismatch(C17 territory)'] += 1
                 self.pairs.update(tuple(p) for p in s['pairs'])
@@ -60,6 +62,7 @@ class Aggregator:
                 self.c['fault:interrupt_landed_inside_call'] += s['landed']
                 self.c['fault:caller_mutation_applied_to_live_object'] += s['mut_applied']
                 self.c['fault:call_raised_partway(uninjected)'] += s['raised']
+                self.c['fault:argument_container_recycled_at_same_address'] += s.get('recycled', 0)
                 self.c['start:' + s['conf']['start']] += 1
                 self.c['mix:' + s['conf']['mix']] += 1
                 self.c['batch:fault_injecting' if s['conf']['faults'] else 'batch:fault_free'] += 1
